@@ -28,6 +28,22 @@ func smtName(name string) string {
 	return sb.String()
 }
 
+// labelStr renders an assertion label; symbolic bytes show as '?'.
+func labelStr(v value) string {
+	if ss, ok := v.(symstr); ok {
+		b := make([]byte, len(ss))
+		for i, x := range ss {
+			if c, ok := x.(uint8); ok {
+				b[i] = c
+			} else {
+				b[i] = '?'
+			}
+		}
+		return string(b)
+	}
+	return argStr(v)
+}
+
 func argStr(v value) string {
 	s, ok := v.(string)
 	if !ok {
@@ -125,8 +141,8 @@ func init() {
 		return out
 	}
 	z["zzAssume"] = func(fr *frame, a []value) value { fr.m.assume(a[0]); return nil }
-	z["zzAssert"] = func(fr *frame, a []value) value { fr.m.check(a[0], argStr(a[1])); return nil }
-	z["zzFail"] = func(fr *frame, a []value) value { fr.m.check(false, argStr(a[0])); return nil }
+	z["zzAssert"] = func(fr *frame, a []value) value { fr.m.check(a[0], labelStr(a[1])); return nil }
+	z["zzFail"] = func(fr *frame, a []value) value { fr.m.check(false, labelStr(a[0])); return nil }
 	z["zzCover"] = func(fr *frame, a []value) value { fr.m.path.Covers[argStr(a[0])] = true; return nil }
 	z["zzKnown"] = func(fr *frame, a []value) value { fr.m.path.Known[argStr(a[0])] = true; return nil }
 	z["zzUnknown"] = func(fr *frame, a []value) value { delete(fr.m.path.Known, argStr(a[0])); return nil }
